@@ -51,7 +51,9 @@ plan("C08", "c08.py", "failure masks over 1-3 destinations x messages x registra
      "Proof: Destinations.send is discharged with two loop invariants over ghost event sequences: every registered destination is offered the "
      "message exactly once in list order whatever subset of the calls raises (proj_a(NEW) == destinations, all offers carry the message), "
      "the collected errors are exactly the failed offers unless the message is itself a destination-failure report (count_failed), and exactly one "
-     "report is logged per collected error with everything inside the report block contained. Bounded native driver as cross-check/replay.",
+     "report is logged per collected error -- message_type eliot:destination_failure, exception = module.Name of the failing exception's class, "
+     "reason = safeunicode(exception), message = _safe_unicode_dictionary(message), through the same logger (call-site obligation on "
+     "log_message(**new_msg)) -- with everything inside the report block contained. Bounded native driver as cross-check/replay.",
      "Trusted: Dest interface model (raises Exception subclasses only, does not mutate the message, does not re-enter Eliot), log_message used "
      "through its contract, definitions of the spec functions proj_a / all_b / count_failed / all_reports, encoding assumptions. The recursion "
      "guard is the decreases clause of the send/log_message/write cycle.")
@@ -124,7 +126,11 @@ plan("C14", "c14.py", "type definitions x conforming messages x single-point dev
      "Proof: _MessageSerializer.validate returns normally only if every declared field is present and its validator returned and (unless "
      "additional fields are allowed) no key outside declared + {task_uuid, task_level, timestamp} is present -- the three names are written "
      "literally in the contract -- and raises only for a missing / undeclared field or a raising field validator; Field.validate calls the "
-     "serializer then the extra validator; MemoryLogger.write validates a copy and records; MemoryLogger.validate re-validates every recorded "
+     "serializer then the extra validator; MemoryLogger.write validates exactly once, on a private copy, records a failed validation and only "
+     "then, and records the message; _validate_message validates and then serializes exactly once with the given serializer (neither without "
+     "one), accepts only text / utf-8 byte keys and only JSON-encodable messages, and lets only its own TypeError or what provably came out "
+     "of the serializer escape; flushTracebacks returns exactly the tracebacks whose reason is an instance of the type and keeps the others "
+     "in order; MemoryLogger.validate re-validates every recorded "
      "message with its own serializer; check_for_errors raises UnflushedTracebacks before validating whenever tracebacks are unflushed; "
      "swap_logger installs and returns the previous default. capture_logging's cleanup registration is decided by the bounded driver only.",
      "Trusted: Serializer/Validator interface models, orjson raising only Exception subclasses, unittest addCleanup semantics (driver), "
@@ -135,7 +141,8 @@ plan("C16", "c16.py", "2-3 threads under a token-passing line scheduler x operat
      "holding self._lock (ghost permission obligations `token@...` at every read and write; the @exclusively wrapper is verified to run the body "
      "inside `with self._lock` and release on every exit), and the monitor invariant len(messages) == len(serializers) with each message "
      "recorded next to its own serializer is re-established at every exit of write / validate / serialize / reset / flushTracebacks including the "
-     "exceptional ones. FileDestination.__call__ issues a single file.write per message. Real interleavings are explored by the bounded driver only.",
+     "exceptional ones; serialize returns private copies that went through a serializer, flushTracebacks partitions exactly. "
+     "FileDestination.__call__ issues a single file.write per message. Real interleavings are explored by the bounded driver only.",
      "Trusted: threading.Lock mutual exclusion, atomicity of one file.write call, encoding assumptions.")
 
 plan("C06", "c06.py", "hand-off chains x carriers (thread/inline/subprocess) x id forms x sinks x merge orders; racing callers of one preserve_context callable (line-granular), on the real code",
@@ -143,8 +150,9 @@ plan("C06", "c06.py", "hand-off chains x carriers (thread/inline/subprocess) x i
      "fromString are the level codec and its inverse; continue_task given such an id (bytes or text) returns a fresh started action with the same "
      "task_uuid at exactly that level, its start message at position 1, and raises only for a missing or malformed id; preserve_context returns f "
      "itself without a current action and otherwise reserves exactly one position; its closure calls f only while holding the token of an atomic "
-     "test-and-set on a lock that is never released (ghost-permission obligation at the call of f), raises TooManyCalls iff the lock was already "
-     "taken, and restores the context. Races and merge orders are explored by the bounded driver only; parsing of the merged logs is C09's part.",
+     "test-and-set on a lock that is never released (ghost-permission obligation at the call of f), with the very same arguments, returns f's "
+     "result, lets only f's own exception escape (ghost RAN), raises TooManyCalls iff the lock was already taken, and restores the context; "
+     "preserve_context owes the closure its variables (closure-environment obligations). Races and merge orders are explored by the bounded driver only; parsing of the merged logs is C09's part.",
      "Trusted: string library axioms (split at '@', level codec inverse, ASCII) used as ground instances and cross-checked natively, "
      "threading.Lock.acquire(False) atomic test-and-set, E13 rely at with-block exit, UserCode rely, encoding assumptions.")
 
@@ -171,16 +179,17 @@ plan("C19", "c19.py", "gate-scheduled cycles of offers / writer steps / stop ove
 plan("C18", "c18.py", "signatures (every parameter kind, defaults, colliding names) x targets x decorator options x valid/invalid calls x contexts x body outcomes, on the real code",
      "Proof: log_call's logging_wrapper calls the wrapped function exactly once with the very same args / kwargs, returns its result object for "
      "include_result both true and false, lets its exception object propagate unchanged, never runs it when Python's binding (getcallargs) fails, "
-     "logs the result iff include_result, and restores the context; start fields are the bound arguments handed over as a dict (no clash with "
-     "start_action's own parameter names after the fix). What `the wrapper accepts exactly the calls the function accepts` rests on is the "
+     "logs the result iff include_result, and restores the context; the start fields are exactly Python's binding of the call "
+     "(inspect.getcallargs as a function of the callable and the arguments) without `self`, restricted to include_args when given, handed over "
+     "as a dict (no clash with start_action's own parameter names after the fix). What `the wrapper accepts exactly the calls the function accepts` rests on is the "
      "boltons.funcutils.wraps / inspect.getcallargs library contracts: bounded driver only (known findings C18-F1, F3, F5).",
      "Trusted: inspect.getcallargs = Python's own binding, boltons.funcutils.wraps (cross-checked by the driver: findings), UserCode rely, E13. "
      "Known findings C18-F1..F5.")
 
 plan("C20", "c20.py", "messages x timestamps x field names/values; input streams mixing Eliot lines, junk bytes, JSON scalars/arrays/incomplete objects; filter expressions, on the real code",
      "Proof: pretty_format renders the type/status fields first and then every remaining field of the message exactly once (loop invariant "
-     "REST == filter_out(enumeration, header fields) over an arbitrary enumeration of the keys); compact_format accepts every message and does "
-     "not touch it; eliot-prettyprint's per-line body never raises for any bytes line -- non-JSON (ValueError family, RecursionError), JSON "
+     "REST == filter_out(enumeration, header fields) over an arbitrary enumeration of the keys); compact_format renders exactly the type/status "
+     "fields plus every remaining field with the message's values and does not touch the message; the UTC timestamp carries the Z marker; eliot-prettyprint's per-line body never raises for any bytes line -- non-JSON (ValueError family, RecursionError), JSON "
      "non-objects and objects lacking required fields are each reported with exactly one output record and processing continues (NOUT == "
      "number of lines); EliotFilter.run writes one output line per input line except exactly those whose expression value is SKIP, and "
      "_evaluate hands the expression J, SKIP, datetime and timedelta. The rendered text itself (pprint, isoformat, json.dumps) is library "
